@@ -258,8 +258,39 @@ ALD = {
 FAMILY.update(ALD)
 # groups of members that are (in addition) migrated among themselves only:
 # (members, all_pairs) - all ordered pairs, or only first <-> each other
+# rebase / rename over a three-level chain (state reached by migration
+# matters: ancestors of grandchildren after a rebase)
+REBASE = {
+    'RB_0': D('abstract type H { x: str; } type P { x: str; } '
+              'type C extending P; type D extending C { d: str; }'),
+    'RB_1': D('abstract type H { x: str; } '
+              'type P extending H { overloaded x: str; } '
+              'type C extending P; type D extending C { d: str; }'),
+    'RB_2': D('abstract type H { z: str; } '
+              'type P extending H { overloaded z: str; } '
+              'type C extending P; type D extending C { d: str; }'),
+    'RB_3': D('abstract type H { x: str; } abstract type H2 { y: str; } '
+              'type P extending H, H2 { overloaded x: str; } '
+              'type C extending P; type D extending C { d: str; }'),
+}
+FAMILY.update(REBASE)
+# implicitly created target types (unions, collections) of inherited
+# pointers: dropped on the parent while a subtype still inherits them
+IMPLICIT = {
+    'IM_0': D('type A { n: str; } type B { n: str; } '
+              'type C { l: A | B; p: array<tuple<str, int64>>; } '
+              'type D extending C;'),
+    'IM_1': D('type A { n: str; } type B { n: str; } '
+              'type C { p: array<tuple<str, int64>>; } type D extending C;'),
+    'IM_2': D('type A { n: str; } type B { n: str; } '
+              'type C { l: A | B; } type D extending C;'),
+    'IM_3': D('type A { n: str; } type B { n: str; } type C; '
+              'type D extending C;'),
+}
+FAMILY.update(IMPLICIT)
 FOCUS_GROUPS = [(list(DEEP), True), (list(FIELDS), False),
-                (list(ALD), True)]
+                (list(ALD), True), (list(REBASE), True),
+                (list(IMPLICIT), True)]
 
 # members whose second module shadows std names used (unqualified in the
 # source) by the first one: the described text must stay self-contained
